@@ -347,7 +347,8 @@ class FixedArray
                 boost::python::throw_error_already_set();
             }
             // e can be -1 if the iteration is backwards with a negative slice operator [::-n] (n > 0).
-            if (s < 0 || e < -1 || sl < 0) {
+            // An empty backward slice (e.g. a[-20:-10:-1], or [::-1] of an empty array) starts at -1.
+            if (sl < 0 || (sl > 0 && (s < 0 || e < -1))) {
                 throw std::domain_error("Slice extraction produced invalid start, end, or length indices");
             }
             start = s;
